@@ -18,7 +18,7 @@ func init() {
 		Level: "proof",
 		Explanation: "Decided (proof of the transformer clause under real arithmetic): every operator's state transformer as implemented equals the ISO 32000 transformer as polynomials in the pre-state cells and operands (R8.1: Matrix.Multiply/Transform, cm, Tm, Td, TD, T*, BT, text position, initial state), save/restore copies every field of the state by value and pops the last pushed state (R8.2), and every operator case binds its operands to the right transformer arguments in the right order, in both interpreters (R8.3); the reported position and size are taken from the specified state functions (R8.4). By induction over operator sequences this covers every operator program, matrix and nesting depth of the quantifier. " +
 			"Not decided: glyph advances (Tj/TJ widths), float rounding, 'reflects' in the font-size sentence beyond data dependence on font size, text matrix and CTM.",
-		Rules: []func(*eng.Ctx){memoInvalidationRule("R8.MI", "text", "graphicsstate", "font"), ruleTransformers, ruleSaveRestore, ruleOperatorBinding, ruleSizeDepends, roleRule("R8.R", "graphicsstate", "text", "model"), ruleFontSizeInputs, ruleShowKeepsLineMatrix, ruleFontSizeUnderRotation, ruleFormStateIsolated},
+		Rules: []func(*eng.Ctx){memoInvalidationRule("R8.MI", "text", "graphicsstate", "font"), ruleDispatchNotGatedByState, ruleTransformers, ruleSaveRestore, ruleOperatorBinding, ruleSizeDepends, roleRule("R8.R", "graphicsstate", "text", "model"), ruleFontSizeInputs, ruleShowKeepsLineMatrix, ruleFontSizeUnderRotation, ruleFormStateIsolated},
 	})
 }
 
